@@ -49,14 +49,33 @@ func reachableFrom(p *Prog, roots []*ssa.Function, scope func(*ssa.Function) boo
 			callees = append(callees, a)
 		}
 		for _, c := range callees {
-			if c == nil || c.Blocks == nil || !scope(c) {
+			if c == nil || c.Blocks == nil {
 				continue
 			}
 			if _, seen := parent[c]; seen {
 				continue
 			}
-			parent[c] = append(append([]*ssa.Function(nil), parent[fn]...), fn)
+			// library functions are walked through (they call back into the repository: codec
+			// methods registered with the frame codec, sort callbacks, ...) but never reported on
+			path := parent[fn]
+			if scope(fn) {
+				path = append(append([]*ssa.Function(nil), parent[fn]...), fn)
+			}
+			parent[c] = path
 			work = append(work, c)
+		}
+	}
+	for fn := range parent {
+		if !scope(fn) {
+			isRoot := false
+			for _, r := range roots {
+				if r == fn {
+					isRoot = true
+				}
+			}
+			if !isRoot {
+				delete(parent, fn)
+			}
 		}
 	}
 	return parent
@@ -330,6 +349,9 @@ func containerField(v ssa.Value) (*types.Var, string) {
 			if callIsMethod(c, "sync", "Map", "Load") || callIsMethod(c, "sync", "Map", "LoadAndDelete") || callIsMethod(c, "sync", "Map", "LoadOrStore") {
 				return fieldOfRecv(c.Call.Args[0]), "value"
 			}
+			if isLRUCall(c, "Get") || isLRUCall(c, "Peek") {
+				return fieldOfRecv(c.Call.Args[0]), "value"
+			}
 		case *ssa.Call:
 			if callIsMethod(x, "sync/atomic", "Value", "Load") {
 				return fieldOfRecv(x.Call.Args[0]), "value"
@@ -401,6 +423,15 @@ func typedContainerOK(p *Prog, f *types.Var, role string, asserted types.Type) b
 					return
 				}
 				arg = args[1]
+			case isLRUCall(c, "Add"):
+				if !recvIs() {
+					return
+				}
+				if role == "key" {
+					arg = args[1]
+				} else {
+					arg = args[2]
+				}
 			default:
 				return
 			}
@@ -484,6 +515,19 @@ func collectPanicSites(p *Prog, fn *ssa.Function) (sites []panicSite, discharged
 				return // synthetic (select default / unreachable)
 			}
 			sites = append(sites, panicSite{fn, in, "panic", valDesc(x.X)})
+		case *ssa.SliceToArrayPointer:
+			// [N]T(s) / (*[N]T)(s) panics when len(s) < N
+			need := int64(-1)
+			if pt, ok := x.Type().Underlying().(*types.Pointer); ok {
+				if at, ok := pt.Elem().Underlying().(*types.Array); ok {
+					need = at.Len()
+				}
+			}
+			if need >= 0 && minLen(in.Block(), x.X) >= need {
+				discharged++
+				return
+			}
+			sites = append(sites, panicSite{fn, in, "slice2array", fmt.Sprintf("[%d](%s)", need, valDesc(x.X))})
 		case *ssa.TypeAssert:
 			if x.CommaOk {
 				return
@@ -692,4 +736,14 @@ func basicBits(b *types.Basic) int {
 		return 32 // the smaller of the supported word sizes: a conversion to it is only widening from <= 32 bits
 	}
 	return 0
+}
+
+// isLRUCall: a method call on the internally locked LRU cache (github.com/hashicorp/golang-lru).
+func isLRUCall(c ssa.CallInstruction, method string) bool {
+	f := c.Common().StaticCallee()
+	if f == nil || f.Name() != method || f.Signature.Recv() == nil {
+		return false
+	}
+	n := namedOf(f.Signature.Recv().Type())
+	return n != nil && n.Obj().Name() == "Cache" && n.Obj().Pkg() != nil && strings.HasSuffix(n.Obj().Pkg().Path(), "golang-lru")
 }
